@@ -5,7 +5,7 @@ from . import ref as R_
 KEY_ANY = tt((0x30, 0x39), (0x41, 0x5A), (0x61, 0x7A), b'._-')
 
 OPS = ['insert', 'get', 'contains_key', 'get_mut_set', 'remove', 'entry', 'entry_or_insert', 'entry_or_insert_with',
-       'entry_and_modify', 'occ_insert', 'occ_remove', 'occ_remove_entry', 'retain_nonempty', 'retain_key_ne',
+       'entry_and_modify', 'occ_insert', 'occ_get_mut_set', 'occ_into_mut_set', 'vac_insert', 'occ_remove', 'occ_remove_entry', 'retain_nonempty', 'retain_key_ne',
        'retain_mut_append', 'iter_mut_append', 'clear', 'index', 'index_set', 'reserve',
        'insert_repository_url', 'get_repository_url', 'contains_repository_url', 'remove_repository_url']
 
@@ -87,7 +87,8 @@ def run_op(L, q, op, key, val):
         return old
     if op == 'remove':
         return opt_bytes(I.call('Qualifiers::remove::<&str>', [qr, K]))
-    if op in ('entry', 'entry_or_insert', 'entry_or_insert_with', 'entry_and_modify', 'occ_insert', 'occ_remove', 'occ_remove_entry'):
+    if op in ('entry', 'entry_or_insert', 'entry_or_insert_with', 'entry_and_modify', 'occ_insert', 'occ_remove', 'occ_remove_entry',
+              'occ_get_mut_set', 'occ_into_mut_set', 'vac_insert'):
         r = I.call('Qualifiers::entry::<&str>', [qr, K])
         if r.variant == 'Err':
             return ('err', err_name(r.fields[0]))
@@ -110,12 +111,21 @@ def run_op(L, q, op, key, val):
             if e2.variant == 'Occupied':
                 return ('occupied', list(sbytes(I.call("qualifiers::OccupiedEntry::<'_, &str>::get", [Ref(e2.fields, 0)]))))
             return 'vacant'
+        if op == 'vac_insert':
+            if e.variant == 'Occupied':
+                return 'occupied'
+            return ('ok', list(sbytes(I.call("qualifiers::VacantEntry::<'_, &str>::insert::<&str>", [e.fields[0], V]))))
         if e.variant == 'Vacant':
             return 'vacant'
         o = e.fields[0]
         OT = "qualifiers::OccupiedEntry::<'_, &str>"
         if op == 'occ_insert':
             return ('old', list(sbytes(I.call(OT + '::insert::<&str>', [Ref([o], 0), V]))))
+        if op in ('occ_get_mut_set', 'occ_into_mut_set'):
+            r = I.call(OT + '::get_mut', [Ref([o], 0)]) if op == 'occ_get_mut_set' else I.call(OT + '::into_mut', [o])
+            old = list(sbytes(r))
+            r.set(StringBuf(val))
+            return ('old', old)
         if op == 'occ_remove':
             return ('old', list(sbytes(I.call(OT + '::remove', [o]))))
         if op == 'occ_remove_entry':
@@ -248,9 +258,14 @@ def ref_op(L, items, op, key, val):
             return 'vacant', items
         items[idx] = (items[idx][0], items[idx][1] + list(val))
         return ('occupied', items[idx][1]), items
+    if op == 'vac_insert':
+        if idx is not None:
+            return 'occupied', items
+        items.insert(ref_insert_pos(L, items, lk), (lk, list(val)))
+        return ('ok', list(val)), items
     if idx is None:
         return 'vacant', items
-    if op == 'occ_insert':
+    if op in ('occ_insert', 'occ_get_mut_set', 'occ_into_mut_set'):
         old = items[idx][1]
         items[idx] = (items[idx][0], list(val))
         return ('old', old), items
